@@ -3,7 +3,9 @@ package main
 import (
 	"path/filepath"
 	"fmt"
+	"go/token"
 	"go/types"
+	"sort"
 	"runtime/debug"
 	"strings"
 
@@ -107,6 +109,7 @@ func (e *Engine) verifyFunc(key string) (vc *VC, err error) {
 	vc.covers = append(vc.covers, &Obl{Name: "requires/cover", Kind: "cover", Guard: "true", Formula: "true", NFacts: len(vc.facts), Func: key, Pos: e.fset.Position(fn.Pos())})
 	fr.run()
 	// postconditions at every return
+	usedRet := map[int]bool{}
 	for ri, r := range fr.rets {
 		fr.reach = r.reach
 		fr.st = r.st
@@ -135,8 +138,31 @@ func (e *Engine) verifyFunc(key string) (vc *VC, err error) {
 				provenEns = append(provenEns, ta)
 			}
 		}
+		// `return N:` clauses: obligations at the N-th return statement in source order
+		if len(c.Returns) > 0 {
+			ord := returnOrdinal(fn, r.instr)
+			for i, rc := range c.Returns {
+				if rc.Ord != ord {
+					continue
+				}
+				nm := fmt.Sprintf("return#%d/%s", ord, clauseName("at", i, rc.C))
+				t, err := fr.evalClause(rc.C, &evalCtx{fr: fr, st: fr.st, old: fr.entry, names: rn, region: fr.st.region})
+				if err != nil {
+					fr.stale(nm, err)
+					continue
+				}
+				o := fr.oblige("ensures", nm, t)
+				o.Note = rc.C.Src
+				usedRet[i] = true
+			}
+		}
 		e.frameObligations(fr, c, names)
 		e.exitInvariants(fr, names)
+	}
+	for i, rc := range c.Returns {
+		if !usedRet[i] {
+			fr.stale(fmt.Sprintf("return#%d/%s", rc.Ord, clauseName("at", i, rc.C)), fmt.Errorf("the function has no return statement number %d", rc.Ord))
+		}
 	}
 	vc.covers = append(vc.covers, &Obl{Name: "returns/cover", Kind: "cover", Guard: orReach(fr.rets), Formula: "true", NFacts: len(vc.facts), Func: key, Pos: e.fset.Position(fn.Pos())})
 	// one cover per distinct reachability guard that carries an obligation: an
@@ -437,4 +463,25 @@ func (e *Engine) verifyLemma(name string) (vc *VC, err error) {
 		o.Note = lm.Ensures[i].Src
 	}
 	return vc, nil
+}
+
+// returnOrdinal: the 1-based source-order ordinal of a return statement among
+// the return instructions of fn (an implicit return at the closing brace
+// counts, it is the last one).
+func returnOrdinal(fn *ssa.Function, r ssa.Instruction) int {
+	var ps []token.Pos
+	for _, b := range fn.Blocks {
+		for _, in := range b.Instrs {
+			if ret, ok := in.(*ssa.Return); ok && ret.Pos() != token.NoPos && b != fn.Recover {
+				ps = append(ps, ret.Pos())
+			}
+		}
+	}
+	sort.Slice(ps, func(i, j int) bool { return ps[i] < ps[j] })
+	for i, p := range ps {
+		if p == r.Pos() {
+			return i + 1
+		}
+	}
+	return 0
 }
